@@ -576,7 +576,7 @@ def _is_ident(n: str) -> bool:
 
 @st.composite
 def class_specs(draw, field_types: st.SearchStrategy[t.Any], *, max_fields: int = 4, naming: bool = True,
-                layouts: bool = True, hooks: bool = True, flags: bool = False) -> t.Any:
+                layouts: bool = True, hooks: bool = True, flags: bool = False, init_false: bool = True) -> t.Any:
     """A flat pane dataclass definition that pane must accept."""
     n = draw(st.integers(0 if max_fields >= 3 else 1, max_fields))
     names = draw(st.lists(st.sampled_from(FIELD_NAMES), min_size=n, max_size=n, unique=True))
@@ -651,11 +651,22 @@ def class_specs(draw, field_types: st.SearchStrategy[t.Any], *, max_fields: int 
         if 'default' in fs and draw(st.integers(0, 9)) == 9:
             fs['exclude'] = True
         fields.append(fs)
+        if init_false and len(fields) < max_fields + 1 and draw(st.integers(0, 5)) == 5:
+            # a field pane does not touch on input (init=False): it must be excluded from output and have a default
+            # (DESIGN section 2); it may sit anywhere among the positional fields
+            nm = draw(st.sampled_from(['cache_slot', 'derived', 'memo']))
+            if nm not in used_keys:
+                used_keys.add(nm)
+                # (a plain default: pane leaves init=False fields to the class, so only a class-attribute default is ever visible)
+                ity = draw(st.sampled_from([('s', 'str'), ('s', 'int'), ('s', 'float')]))
+                idata = {'str': 'K', 'int': 0, 'float': 0.5}[ity[1]]
+                fields.append({'name': nm, 'type': ity, 'init': False, 'exclude': True, 'default': ['value', idata]})
     cs: t.Dict[str, t.Any] = {'fields': fields, 'opts': opts}
     if kwm is not None:
-        cs['kw_marker'] = kwm
-    if hooks and fields and draw(st.integers(0, 5)) == 5:
-        fs = draw(st.sampled_from(fields))
+        # the marker sits in front of the kwm-th *drawn* field; inserted init=False fields shift its index
+        cs['kw_marker'] = next(j for (j, f) in enumerate(fields) if f['name'] == names[kwm])
+    if hooks and [f for f in fields if f.get('init', True)] and draw(st.integers(0, 5)) == 5:
+        fs = draw(st.sampled_from([f for f in fields if f.get('init', True)]))
         cs['post'] = ['reject', fs['name'], draw(node(fs['type']).valid())]
     return ('cls', cs)
 
